@@ -13,6 +13,7 @@ package main
 import (
 	"encoding/json"
 	"fmt"
+	"regexp"
 	"time"
 
 	"go.flow.arcalot.io/pluginsdk/mcrt"
@@ -73,6 +74,17 @@ func outcome(v any, err error) string {
 		return "reject"
 	}
 	return "accept " + ukit.Snapshot(v)
+}
+
+var addrRe = regexp.MustCompile(`0x[0-9a-f]{6,}`)
+
+// outcomeE also renders the error (its text carries the path to the offending value): used where every call runs
+// under the one sorted iteration order, so that the text is a function of (schema, argument) too.
+func outcomeE(v any, err error) string {
+	if err != nil {
+		return "reject: " + addrRe.ReplaceAllString(err.Error(), "0xADDR")
+	}
+	return outcome(v, err)
 }
 
 type arg struct {
@@ -302,6 +314,24 @@ func alphabet(spec *ukit.Spec) []call {
 			break
 		}
 	}
+	// rejected calls on the native side and in data-mode compatibility (their errors travel up through the containers)
+	for i, bn := range badNatives(spec, probeSch) {
+		bn := bn
+		if i == 0 {
+			out = append(out, call{"Validate", func() any { return bn }, "Validate(" + ukit.Show(bn) + ")"})
+		}
+		if i <= 1 {
+			out = append(out, call{"Serialize", func() any { return bn }, "Serialize(" + ukit.Show(bn) + ")"})
+		}
+	}
+	for _, r := range raws {
+		var err error
+		pan, _, _ := ukit.Call(func() { err = probeSch.ValidateCompatibility(ukit.DeepCopy(r)) })
+		if !pan && err != nil {
+			add("ValidateCompatibility", r)
+			break
+		}
+	}
 	if len(valids) > 0 {
 		add("ValidateCompatibility", valids[0])
 	}
@@ -342,7 +372,7 @@ func observeNodes(nodes []objNode) string {
 		for _, v := range append(ukit.ValidValues(n.spec, 2), map[string]any{}) {
 			pan, _, _ := ukit.Call(func() {
 				u, err := n.obj.Unserialize(ukit.DeepCopy(v))
-				s += ";" + outcome(u, err)
+				s += ";" + outcomeE(u, err)
 			})
 			if pan {
 				s += ";panic"
@@ -352,8 +382,57 @@ func observeNodes(nodes []objNode) string {
 	return s
 }
 
+// badNatives: up to three native values the schema rejects - accepted native values with one position corrupted
+// (out of bounds, not in the enum, nil pattern, missing required key, nil).
+func badNatives(spec *ukit.Spec, sch schema.Type) []any {
+	var out []any
+	seen := map[string]bool{}
+	for _, v := range ukit.ValidValues(spec, 2) {
+		var n any
+		var err error
+		pan, _, _ := ukit.Call(func() { n, err = sch.Unserialize(ukit.DeepCopy(v)) })
+		if pan || err != nil {
+			continue
+		}
+		var cands []any
+		for _, c := range ukit.NativeCorruptions(spec, n) {
+			cands = append(cands, c.Value)
+		}
+		for _, pos := range ukit.Positions(n) {
+			if !pos.IsKey && pos.Path != "$" {
+				pos := pos
+				ukit.Call(func() { cands = append(cands, pos.Replace(nil)) })
+			}
+		}
+		for _, bad := range cands {
+			var verr error
+			bad := bad
+			pan, _, _ := ukit.Call(func() { verr = sch.Validate(bad) })
+			if pan || verr == nil || seen[ukit.Snapshot(bad)] {
+				continue
+			}
+			seen[ukit.Snapshot(bad)] = true
+			out = append(out, bad)
+			if len(out) == 3 {
+				return out
+			}
+		}
+	}
+	return out
+}
+
 func observe(spec *ukit.Spec, sch schema.Type, probes []any) string {
 	s := ""
+	for _, bn := range badNatives(spec, sch) {
+		pan, _, _ := ukit.Call(func() {
+			s += outcomeE(nil, sch.Validate(bn)) + ";"
+			w, err := sch.Serialize(bn)
+			s += outcomeE(w, err) + ";"
+		})
+		if pan {
+			s += "panic;"
+		}
+	}
 	if sc, ok := sch.(*schema.ScopeSchema); ok {
 		d, err := sc.SelfSerialize()
 		s += "self:" + ukit.Snapshot(d) + fmt.Sprint(err == nil) + "|"
@@ -362,10 +441,10 @@ func observe(spec *ukit.Spec, sch schema.Type, probes []any) string {
 		for _, op := range []string{"Unserialize", "ValidateCompatibility"} {
 			pan, _, _ := ukit.Call(func() {
 				v, err := apply(sch, op, ukit.DeepCopy(p))
-				s += outcome(v, err) + ";"
+				s += outcomeE(v, err) + ";"
 				if op == "Unserialize" && err == nil {
 					w, e2 := sch.Serialize(v)
-					s += outcome(w, e2) + ";"
+					s += outcomeE(w, e2) + ";"
 				}
 			})
 			if pan {
@@ -514,9 +593,9 @@ func main() {
 			}
 			return res.Findings
 		},
-		Rule: "(a,b) every spec of U_2 that ranges over a map (enums, maps, objects, one-ofs, scopes, any, unit-bearing scalars) x its raw values (incl. maps whose distinct raw keys denote one key), their native forms and schema arguments (second instance, single-feature neighbours) x 4 operations, each executed under the default and under every single (thorough: pair of) non-default iteration order(s) of every range-over-map / MapKeys the operation performs (all permutations for <= 4 keys); argument snapshot compared before/after. (c) breadth-first search over call histories of depth <= 3 (thorough 4) over an alphabet of ~9 calls per spec on one instance; states = distinct deep dumps (incl. unexported caches) of the instance, transitions = calls replayed; every reached instance is compared with a fresh one on self-description, a probe set, and the defaults and direct behaviour of every object schema inside it. non-trivial = cases in which more than one order / state was actually explored",
+		Rule: "(a,b) every spec of U_2 that ranges over a map (enums, maps, objects, one-ofs, scopes, any, unit-bearing scalars) x its raw values (incl. maps whose distinct raw keys denote one key), their native forms and schema arguments (second instance, single-feature neighbours) x 4 operations, each executed under the default and under every single (thorough: pair of) non-default iteration order(s) of every range-over-map / MapKeys the operation performs (all permutations for <= 4 keys); argument snapshot compared before/after. (c) breadth-first search over call histories of depth <= 3 (thorough 4) over an alphabet of ~12 calls per spec (accepted and rejected calls of all four operations) on one instance; states = distinct deep dumps (incl. unexported caches) of the instance, transitions = calls replayed; every reached instance is compared with a fresh one on self-description, a probe set incl. rejected native values (verdicts, values and error texts with their paths), and the defaults and direct behaviour of every object schema inside it. non-trivial = cases in which more than one order / state was actually explored",
 		Assumptions: []string{
-			"error texts are not compared, only accept/reject and returned values",
+			"error texts are compared only in the history search (one fixed iteration order; addresses masked); under deviating orders only accept/reject and returned values",
 			"histories are rebuilt from a fresh instance per BFS node (live schema objects cannot be cloned)",
 			"deviation bound: one (thorough: two) map iterations per call deviate from sorted order, each over all permutations",
 		},
